@@ -1,9 +1,13 @@
 #!/bin/bash
 # evaluate every delivered seed not yet recorded; serial (they patch /repo's working tree)
 cd /verif
-for d in /tmp/seed_C*/[a-z]; do
+for d in /tmp/seed_C*/[a-z] /tmp/seed2_C*/[a-z]; do
   [ -f "$d/patch.diff" ] || continue
-  prop=$(basename $(dirname $d) | sed 's/seed_//'); v=$(basename $d); id="$prop-$v"
+  top=$(basename $(dirname $d)); v=$(basename $d)
+  case $top in
+    seed2_*) prop=${top#seed2_}; id="$prop-2$v";;
+    *) prop=${top#seed_}; id="$prop-$v";;
+  esac
   [ -f "seeded/$id/meta.json" ] && grep -q '"checks"' "seeded/$id/meta.json" && continue
   echo "=== $id"
   python3 tools/eval_seed.py $d $prop $id --checks $prop 2>&1 | tail -4
